@@ -359,7 +359,9 @@ func fileKeys() []fileKey {
 					b, _ := json.Marshal(m2)
 					k, err := jwk.ParseKey(b)
 					if err != nil {
-						continue // would make the whole file unreadable: another class (junk files)
+						// cannot even be decoded: kept for files that hold such an entry next to good keys
+						undecodable = append(undecodable, fileKey{JSON: b, Kid: kid})
+						continue
 					}
 					if jwkutil.Validate(k) == nil {
 						continue // the library considers it fine (e.g. a shortened RSA exponent): not broken
@@ -369,12 +371,41 @@ func fileKeys() []fileKey {
 				}
 			}
 		}
+		// and entries that lack a required member altogether
+		for i, fk := range append([]fileKey{}, fks...) {
+			if !fk.Valid || !strings.HasPrefix(fk.Kid, "good") {
+				continue
+			}
+			var members map[string]any
+			must(json.Unmarshal(fk.JSON, &members))
+			for _, field := range []string{"n", "x", "y", "crv"} {
+				if _, ok := members[field]; !ok {
+					continue
+				}
+				m2 := map[string]any{}
+				for k, v := range members {
+					if k != field {
+						m2[k] = v
+					}
+				}
+				kid := fmt.Sprintf("lacks-%d-%s", i, field)
+				m2["kid"] = kid
+				b, _ := json.Marshal(m2)
+				if _, err := jwk.ParseKey(b); err != nil {
+					undecodable = append(undecodable, fileKey{JSON: b, Kid: kid})
+				}
+			}
+		}
 		brokenKeys = nbroken
 	})
 	return fks
 }
 
 var brokenKeys int
+
+// undecodable: JWK-shaped entries the JOSE library refuses to decode (a required member missing or
+// malformed). A key-set file holding one is not a usable key set.
+var undecodable []fileKey
 
 var recLoad = ev.New("TestPropLoadKey", "key-set files (JWKS form, or bare-JWK form for singletons) of 0-3 keys with distinct kids drawn from valid keys (private and public EdDSA/ES512/PS512), a valid kid-less key and invalid keys (HS512 oct, RS256, ES256, no alg, and structurally broken keys - one member of the key material emptied or halved - that declare an approved algorithm), x requested id in {\"\", each kid, an absent kid, near misses of each kid (white-space padded, upper-cased, truncated), white space only}, plus unreadable and malformed files; LoadKey must return the key with that id / the only key, else fail; non-trivial = set of >=2 keys, or a selected key that is invalid; distinct by (file content, id)")
 
@@ -412,8 +443,16 @@ func TestPropLoadKey(t *testing.T) {
 			chosen = append(chosen, all[i])
 			raws = append(raws, all[i].JSON)
 		}
+		// one file in eight also holds an entry that cannot be decoded
+		var poison *fileKey
+		if len(undecodable) > 0 && cnt >= 1 && rapid.IntRange(0, 7).Draw(t, "poison") == 0 {
+			pz := rapid.SampledFrom(undecodable).Draw(t, "undecodable")
+			poison = &pz
+			at := rapid.IntRange(0, len(raws)).Draw(t, "poisonat")
+			raws = append(raws[:at:at], append([]json.RawMessage{pz.JSON}, raws[at:]...)...)
+		}
 		var content []byte
-		bare := cnt == 1 && rapid.Bool().Draw(t, "bare")
+		bare := poison == nil && cnt == 1 && rapid.Bool().Draw(t, "bare")
 		if bare {
 			content = raws[0]
 		} else {
@@ -460,6 +499,17 @@ func TestPropLoadKey(t *testing.T) {
 					want = &chosen[i]
 				}
 			}
+		}
+		if poison != nil {
+			// the file holds >= 2 entries, one of them undecodable: asking for "the only key" or for the
+			// undecodable entry must fail (asking for a good key by id is left open)
+			for _, pid := range []string{"", poison.Kid} {
+				if _, perr := jwkutil.LoadKey(path, pid); perr == nil {
+					t.Fatalf("LoadKey(id=%q) succeeded on a file of %d entries one of which cannot be decoded: %s", pid, len(raws), content)
+				}
+			}
+			recLoad.Case(ev.Hash(string(content), "poison"), true, "class=undecodable-entry")
+			return
 		}
 		k, err := jwkutil.LoadKey(path, id)
 		selInvalid := want != nil && !want.Valid
